@@ -725,4 +725,30 @@ theorem quiet_of_no_io (d : List (BitVec 8 × TOp)) (h : d.all (fun e => !isIo e
   rw [hp] at this
   cases this
 
+/-! ### Non-vacuity -/
+
+/-- a 48K controller at frame offset `fc` -/
+def exampleCtl (fc : Nat) : Ctl := { Ctl.new .k48 with frameClocks := fc }
+
+/-- raw schedules at the first contended T-state (14335, delay 6) and six T-states later (delay 0):
+a contended read is `[6, 3]` resp. `[0, 3]` — a zero-length call —, an uncontended one `[3]`; a port cycle
+of an even port with a contended high byte is C:1, C:3 = `[6, 1, 0 + 2, 1]`; of an odd one C:1 ×4 =
+`[6, 1, 0 + 1, 6 + 1, 0, 1]` (two zero-length calls); of port 0xFE N:1, C:3 = `[1, 5 + 2, 1]`; the wait that
+ends the frame -/
+example :
+    (exampleCtl 14335).rawMem 0x4000 3 = [6, 3] ∧ (exampleCtl 14341).rawMem 0x4000 3 = [0, 3] ∧
+    (exampleCtl 14335).rawMem 0x8000 3 = [3] ∧
+    (exampleCtl 14335).rawIo 0x40FE = [6, 1, 2, 1] ∧ (exampleCtl 14335).rawIo 0x40FF = [6, 1, 1, 7, 0, 1] ∧
+    (exampleCtl 14335).rawIo 0x00FE = [1, 7, 1] ∧ (exampleCtl 14335).rawIo 0x00FF = [1, 2, 1] ∧
+    ((exampleCtl 69886).waits ((exampleCtl 69886).rawMem 0x8000 4)).clock = (2, 1) := by decide
+
+/-- the refinement on these states: the model's operations are the folded raw schedules -/
+example : (exampleCtl 14335).ioCycle 0x40FF = (exampleCtl 14335).waits [6, 1, 1, 7, 0, 1] := by
+  rw [io_refines]; rfl
+
+/-- replaying a log: a fetch from uncontended RAM, a contended read, an `IN` from port 0xFE, started at
+offset 14331 on a 48K machine -/
+example : rawReplay .k48 14331 [(0, .mem 0x8000 4), (0, .mem 0x4001 3), (0, .io 0x00FE)] =
+    [4, 6, 3, 1, 4 + 2, 1] := by decide
+
 end ZxVerif.RawWaits
